@@ -5,6 +5,7 @@ import (
 	"go/constant"
 	"go/token"
 	"go/types"
+	"golang.org/x/tools/go/ssa"
 	"sort"
 	"strings"
 
@@ -218,6 +219,9 @@ func isErrorCtor(info *types.Info, e ast.Expr) bool {
 					return true
 				}
 			}
+			if errCtorObjs[fn] {
+				return true // an extracted, straight-line error constructor of the repository
+			}
 			sig := fn.Type().(*types.Signature)
 			if sig.Results().Len() == 1 {
 				rt := sig.Results().At(0).Type()
@@ -273,4 +277,31 @@ func DeclName(fd *ast.FuncDecl) string {
 		}
 	}
 	return fd.Name.Name
+}
+
+// errCtorObjs: repository functions recognised as error constructors (filled at load).
+var errCtorObjs = map[*types.Func]bool{}
+
+// IsErrCtorFunc: a straight-line function whose only result is an error it
+// makes itself (fmt.Errorf, errors.New, or a concrete error value boxed): an
+// extracted error constructor. Its call sites are where the error originates.
+func IsErrCtorFunc(g *ssa.Function) bool {
+	if g == nil || len(g.Blocks) != 1 || g.Signature.Results().Len() != 1 || !IsErrorType(g.Signature.Results().At(0).Type()) {
+		return false
+	}
+	r, ok := g.Blocks[0].Instrs[len(g.Blocks[0].Instrs)-1].(*ssa.Return)
+	if !ok || len(r.Results) != 1 {
+		return false
+	}
+	switch x := r.Results[0].(type) {
+	case *ssa.Call:
+		if o := CalleeObj(x); o != nil && o.Pkg() != nil {
+			full := o.Pkg().Path() + "." + o.Name()
+			return full == "fmt.Errorf" || full == "errors.New"
+		}
+	case *ssa.MakeInterface:
+		_, isParam := x.X.(*ssa.Parameter)
+		return !isParam
+	}
+	return false
 }
